@@ -52,7 +52,7 @@ def run(tier, seed):
         for n in ns:
             if meth == "simpson" and n % 2 == 0:
                 n += 1
-            ivs = [(-1.0, 1.0), (0.0, 1.0)]
+            ivs = [(-1.0, 1.0), (0.0, 1.0), (-2.0, 0.0), (-0.5, -0.0), (0.0, 3.0), (-0.0, 0.25)]
             for _ in range(2 if tier == "quick" else 6):
                 a = rng.choice([rng.uniform(-10, 10), float(rng.randint(-5, 5)), rng.uniform(-1e3, 1e3), rng.uniform(-1e-3, 1e-3)])
                 L = rng.choice([rng.uniform(0.01, 10), float(rng.randint(1, 7)), 10 ** rng.uniform(-4, 3)])
@@ -61,7 +61,11 @@ def run(tier, seed):
                 specs.append((meth, n, a, b))
     cases, meta, bad = [], [], []
     for meth, n, a, b in specs:
-        x, w = quadrature(n, a, b, method=meth)
+        try:
+            x, w = quadrature(n, a, b, method=meth)
+        except Exception as ex:
+            bad.append(dict(method=meth, n=n, a=a, b=b, failed=["quadrature raised %r for a legal request" % (ex,)]))
+            continue
         ox, ow = ([], [])
         if meth == "gl":
             ox, ow = np.polynomial.legendre.leggauss(n)
